@@ -56,8 +56,26 @@ func RunScenario(t *testing.T, sc *Scenario) *RunResult {
 
 func finishUci(sc *Scenario, out *UciRunOut, res *RunResult) {
 	sim := out.Sim
+	if res.Faults == nil {
+		res.Faults = map[string]int{}
+	}
 	CheckUciHistory(sc, out, res)
 	checkSimCommon(sc, sim, res)
+	for k, v := range out.Faults {
+		for i := 0; i < v; i++ {
+			res.fault(k)
+		}
+	}
+	for k, v := range out.Probes {
+		for i := 0; i < v; i++ {
+			res.probe(k)
+		}
+	}
+	if sim.TimerFires-len(sim.StaleFires) > 0 {
+		res.Faults["F2_timeout_mid_search"] += sim.TimerFires - len(sim.StaleFires)
+	}
+	res.Signature = fmt.Sprintf("%016x", out.SigHash)
+	res.NonTrivial = len(res.Faults) > 0
 	res.TraceHash = sim.TraceHash()
 	res.SimNs = sim.Now()
 	res.Yields = sim.Yields
